@@ -5,6 +5,7 @@ import (
 	"go/token"
 	"go/types"
 	"os"
+	"strings"
 
 	"golang.org/x/tools/go/ssa"
 )
@@ -425,6 +426,42 @@ func c16Digest(rc *RuleCtx) {
 				}
 			}
 		})
+		// Reset may be made by a helper that receives the hasher and builds the writer: it must then precede every
+		// return of the helper that hands the hasher on, and the helper's call is what must precede the copy
+		if reset == nil {
+			eachCall(f, func(c ssa.CallInstruction) {
+				sc := c.Common().StaticCallee()
+				if sc == nil || len(sc.Blocks) == 0 || reset != nil {
+					return
+				}
+				for i, a := range c.Common().Args {
+					if i >= len(sc.Params) || strip(a) != ssa.Value(hasher) {
+						continue
+					}
+					hp := sc.Params[i]
+					var hr ssa.CallInstruction
+					eachCall(sc, func(hc ssa.CallInstruction) {
+						if fn := calleeFunc(hc); fn != nil && fn.Name() == "Reset" && hc.Common().IsInvoke() && hc.Common().Value == ssa.Value(hp) {
+							hr = hc
+						}
+					})
+					if hr == nil {
+						continue
+					}
+					ok := true
+					for _, r := range returnsOf(sc) {
+						for _, res := range r.Results {
+							if valueReaches(hp, res) && !domInstr(hr, r) {
+								ok = false
+							}
+						}
+					}
+					if ok {
+						reset = c
+					}
+				}
+			})
+		}
 		cons := funcName(f) + " hasher"
 		switch {
 		case copyc == nil:
@@ -506,6 +543,22 @@ func valueReaches(src ssa.Value, dst ssa.Value) bool {
 				for _, a := range x.Call.Args {
 					if walk(a) {
 						return true
+					}
+				}
+			}
+			// a helper of the library that builds the writer: the source reaches the result when the argument it is
+			// passed as reaches a returned value of the helper
+			if sc := x.Call.StaticCallee(); sc != nil && len(sc.Blocks) > 0 && sc.Pkg != nil && strings.HasPrefix(sc.Pkg.Pkg.Path(), modPath) {
+				for i, a := range x.Call.Args {
+					if i >= len(sc.Params) || !walk(a) {
+						continue
+					}
+					for _, r := range returnsOf(sc) {
+						for _, res := range r.Results {
+							if valueReaches(sc.Params[i], res) {
+								return true
+							}
+						}
 					}
 				}
 			}
